@@ -2,7 +2,7 @@
 # usage: run.sh [worktree]  -- runs every TestTriage* individually (some crash the process on a broken tree)
 W=${1:-/repo}
 export GOFLAGS=-mod=mod GOPROXY=off GOSUMDB=off GOTOOLCHAIN=local; unset GOWORK
-cp /verif/triage/triage_test.go $W/engine/zz_triage_test.go
+cp /verif/triage/triage_test.go.txt $W/engine/zz_triage_test.go
 trap 'rm -f $W/engine/zz_triage_test.go /tmp/triage_engine.test' EXIT
 (cd $W && go test -c -vet=off -o /tmp/triage_engine.test ./engine/) || exit 2
 cd $W/engine
